@@ -192,7 +192,17 @@ class Checker:
             try:
                 self.units = parse(self.text)
             except VhdlSyntaxError as e:
-                self.err("syntax", str(e), key="parse")
+                import re as _re
+
+                m = _re.search(r"line (\d+)", str(e))
+                src = (self.text or "").splitlines()
+                stmt = src[int(m.group(1)) - 1].strip() if m and 0 < int(m.group(1)) <= len(src) else ""
+                if _re.match(r"(?i)(case|if|for|while|loop|wait|null)\b", stmt):
+                    # the parser was in the architecture statement part (inside a process these are parsed)
+                    self.err("syntax", f"sequential statement `{stmt[:60]}` where a concurrent statement is required ({e})",
+                             int(m.group(1)), key="sequential statement in concurrent part")
+                else:
+                    self.err("syntax", str(e), key="parse")
                 return self.issues
             except RecursionError:
                 self.err("syntax", "expression nesting too deep for the parser", key="depth")
